@@ -60,7 +60,7 @@ PLANS = {
     ),
     'C09': dict(
         oracle='C09', level='exploration',
-        profiles=[('pseudo', 4), ('pseudo_nc', 2), ('hist_explicit', 1)], curated=[], configs=ALLCFG,
+        profiles=[('pseudo', 3), ('pseudo_nc', 2), ('hist_explicit', 2)], curated=[], configs=ALLCFG,
         cp=dict(max_ops=30, kinds=['P']), examples=(400, 1500), floor=(100, 400),
         rule='Generated histories on machines combining direct<>, fork, entry_pt<> and exit_pt<> rows; oracle: every step that '
              'touches a pseudo construct (pseudo state entered/left, pseudo row consulted, or an exit point event sent while the '
@@ -82,7 +82,7 @@ PLANS = {
     ),
     'C03': dict(
         oracle='C03', level='exploration',
-        profiles=[('intro', 6)], curated=[], configs=ALLCFG,
+        profiles=[('intro', 5), ('intro_roothist', 1)], curated=[], configs=ALLCFG,
         cp=dict(max_ops=30, kinds=['P', 'P', 'P', 'P', 'Q', 'X', 'T'], auto_probe=True, final_stop=True,
                 scripts={'p': ['r', 'Q', 'q']}),
         examples=(300, 1250), floor=(25, 100),
